@@ -459,6 +459,15 @@ for _p, _g in CODE_TIE.items():
         PROPS[_p]['trusted_base'] = list(PROPS[_p].get('trusted_base', [])) + [
             'translation tie: the translator /verif/translator (syn 2 parser + printer; cfg(test) and cfg(clock_bound_verif) evaluated to false) and the interpreter lean/ClockBound/Rs/Interp.lean (one rule per Rust fact: checked integer arithmetic as in the dev profile, wrapping `as`, IEEE binary64 as in Model/F64 without exponent range, nix TimeSpec as in Model/Time, anything without a rule is `stuck`), Rs/Embed.lean (which Rust value a model value stands for); the FSM behind Box<dyn FSMState> is represented by fsmStep (tied by the regenerated transition table); per theorem group an extension dictionary Rs/Dict*.lean (what an atomic access, a libc call, a clock read, a channel operation, a raw pointer IS: one input from the environment and one logged event; nothing else) and Rs/Embed*.lean']
 
+# the properties stated about the source: compositions of the ties with the model_holds theorems (Properties/OnCode*.lean)
+ON_CODE = {'C05': ['Client'], 'C06': ['Client'], 'C14': ['Client'], 'C07': ['Extract', 'Updater'], 'C10': ['Extract'],
+           'C08': ['Dispatch'], 'C09': ['Dispatch'], 'C19': ['Drift', 'Updater'],
+           'C01': ['Client', 'Extract', 'Updater', 'Dispatch', 'Drift']}
+for _p, _g in ON_CODE.items():
+    if _p in PROPS:
+        PROPS[_p]['code_tie'] = PROPS[_p].get('code_tie', []) + [f'ClockBound.Properties.OnCode{_x}' for _x in _g]
+        PROPS[_p]['level_text'] = PROPS[_p].get('level_text', '') + ' Property on the source (' + ', '.join(f'OnCode{_x}' for _x in _g) + "): the property's oracle is proved of whatever the interpreted regenerated AST answers, for all inputs (composition of the tie with the model theorems; the model occurs only as an existential witness)."
+
 # ------------------------------------------------------------------ translated constants (supplementary source tie)
 CONSTS = {'C05': 'Client', 'C06': 'Client', 'C14': 'Client', 'C18': 'Reader', 'C11': 'Gen', 'C16': 'Magic', 'C17': 'Magic',
           'C13': 'Poller', 'C08': 'Updater', 'C09': 'Updater', 'C10': 'Classify', 'C07': 'Bound', 'C19': 'Drift'}
